@@ -41,6 +41,10 @@ pub fn run(ctx: &Ctx, rep: &mut Report, replay: Option<&serde_json::Value>) {
     ctx.shrink_iters.store(120, std::sync::atomic::Ordering::Relaxed);
     if let Some(v) = replay {
         let t: Tagged<Scenario> = serde_json::from_value(v.clone()).expect("replay");
+        if t.sub == "rrdp" {
+            run_case(ctx, rep, &t.sub, &t.case, prop_rrdp);
+            return;
+        }
         run_case(ctx, rep, &t.sub, &t.case, prop);
         return;
     }
@@ -49,4 +53,23 @@ pub fn run(ctx: &Ctx, rep: &mut Report, replay: Option<&serde_json::Value>) {
         let hp = hp.clone();
         move |w| history_run(&w, &hp)
     }), prop);
+    // the same histories with CAs published through RRDP repositories that fail in some runs
+    rep.rule("(rrdp) the same histories with every CA published through one of 2 RRDP repositories with chance 1/2 (honest in-harness server producing deltas between runs), each repository's notification failing (HTTP 500) with chance 4/16 per run, rrdp-fallback in {stale, never, new}; oracle as above with the stored point read from the path keyed by the CA's rpkiNotify URI (routinator's own path function), also when the data came over rsync after a fallback; model: failed update with a local copy => stored data only, without one => rsync unless policy never; non-trivial = as above and a CA published through RRDP was attempted after a refused update or in a run where its repository failed");
+    let mut hp = profile();
+    hp.base.rrdp_16 = 8;
+    hp.fail_rrdp_16 = 4;
+    run_prop_par(ctx, rep, "rrdp", ctx.tier.pick(100, 2500), 8, || (genome(260), rrdp_genome()).prop_map({
+        let hp = hp.clone();
+        move |(w, r)| history_run_rrdp(&w, &r, &hp)
+    }), prop_rrdp);
+}
+
+fn prop_rrdp(sc: &Scenario, info: &mut CaseInfo) -> Verdict {
+    let j = Judge { id: "C04/rrdp", sound: true, complete: true, store: true, archives: true, ..Default::default() };
+    let (v, seen) = judge_rrdp(&j, sc, info, |_, _| None);
+    info.nontrivial = refused_after_success(sc) && seen.attempted && (seen.refused_update || seen.current || seen.fallback || seen.unavailable_never);
+    for c in history_classes(sc) {
+        info.class(c);
+    }
+    v
 }
